@@ -39,7 +39,7 @@ from xdsl.dialects.builtin import (
     Signedness,
     StringAttr,
 )
-from xdsl.ir import Attribute, ParametrizedAttribute
+from xdsl.ir import Attribute, ParametrizedAttribute, TypeAttribute
 from xdsl.irdl import (
     AllOf,
     AnyAttr,
@@ -82,6 +82,13 @@ class S2(AB):
     name = "c09.s2"
 
 
+@irdl_attr_definition
+class S3(AB):
+    """final subclass of the abstract base that has MANY values (one parameter)"""
+    name = "c09.s3"
+    v: Attribute
+
+
 _GA = TypeVar("_GA", bound=Attribute, covariant=True, default=Attribute)
 _GB = TypeVar("_GB", bound=Attribute, covariant=True, default=Attribute)
 
@@ -95,7 +102,8 @@ class G(ParametrizedAttribute, Generic[_GA, _GB]):
 
 CLS = {
     "IntegerType": IntegerType, "IndexType": IndexType, "IntegerAttr": IntegerAttr, "StringAttr": StringAttr,
-    "P": P, "AB": AB, "S1": S1, "S2": S2, "G": G, "ArrayAttr": ArrayAttr, "Attribute": Attribute,
+    "P": P, "AB": AB, "S1": S1, "S2": S2, "S3": S3, "G": G, "TypeAttribute": TypeAttribute,
+    "ParametrizedAttribute": ParametrizedAttribute, "ArrayAttr": ArrayAttr, "Attribute": Attribute,
 }
 
 # ------------------------------------------------------------------------------------------------
@@ -115,8 +123,9 @@ def PV(x, y):
 
 
 _TAG_CLASS = {"it": "IntegerType", "idx": "IndexType", "ia": "IntegerAttr", "int": "IntAttr", "s": "StringAttr",
-              "P": "P", "S1": "S1", "S2": "S2", "arr": "ArrayAttr", "G": "G", "?": "?"}
-_SUBCLASSES = {"AB": ("S1", "S2")}
+              "P": "P", "S1": "S1", "S2": "S2", "S3": "S3", "arr": "ArrayAttr", "G": "G", "?": "?"}
+_SUBCLASSES = {"AB": ("S1", "S2", "S3"), "TypeAttribute": ("IntegerType", "IndexType"),
+               "ParametrizedAttribute": ("IntegerType", "IndexType", "IntegerAttr", "P", "S1", "S2", "S3", "G")}
 
 
 def m_isinstance(v, cname):
@@ -141,6 +150,8 @@ def real(v):
         return P(real(v[1]), real(v[2]))
     if k == "G":
         return G(real(v[1]), real(v[2]))
+    if k == "S3":
+        return S3(real(v[1]))
     if k == "S1":
         return S1()
     if k == "S2":
@@ -169,6 +180,8 @@ def to_model(a):
         return ("P", to_model(a.x), to_model(a.y))
     if t is G:
         return ("G", to_model(a.p), to_model(a.q))
+    if t is S3:
+        return ("S3", to_model(a.v))
     if t is S1:
         return VS1
     if t is S2:
@@ -194,6 +207,8 @@ def vname(v):
         return f"{k}<{vname(v[1])},{vname(v[2])}>"
     if k == "arr":
         return "[" + ",".join(vname(e) for e in v[1]) + "]"
+    if k == "S3":
+        return f"S3<{vname(v[1])}>"
     return k
 
 
@@ -442,7 +457,7 @@ def build(c):
 U_BASE = (
     I1, I32, I64, IDX,
     IA(0, I32), IA(1, I32), IA(0, I64), IA(0, IDX), IA(1, IDX),
-    SA, SB, VS1, VS2,
+    SA, SB, VS1, VS2, ("S3", I32), ("S3", I64),
 )
 U_P = (
     PV(I32, I32), PV(I32, I64), PV(I64, I32), PV(I64, I64), PV(I32, SA), PV(SA, I32), PV(SA, SB),
@@ -493,8 +508,8 @@ def _set(*vs):
 LEAVES_FULL = (
     ANY,
     _base("IntegerType"), _base("IndexType"), _base("IntegerAttr"), _base("StringAttr"), _base("P"), _base("AB"),
-    _base("S1"),
-    _eq(I32), _eq(I64), _eq(IDX), _eq(IA(0, I32)), _eq(SA), _eq(VS1), _eq(PV(I32, I32)),
+    _base("S1"), _base("TypeAttribute"),
+    _eq(I32), _eq(I64), _eq(IDX), _eq(IA(0, I32)), _eq(SA), _eq(VS1), _eq(PV(I32, I32)), _eq(("S3", I32)),
     _set(I32, I64), _set(I32, IDX), _set(SA, SB), _set(I32, SA), _set(PV(I32, I32), PV(I32, I64)), _set(VS1, VS2),
 )
 LEAVES_D3_QUICK = (ANY, _base("IntegerType"), _base("P"), _base("AB"), _eq(I32), _set(I32, I64))
@@ -563,6 +578,9 @@ def root_groups(kind, first, free, allv, triples_pool=None):
 # ------------------------------------------------------------------------------------------------
 # checking one tree
 # ------------------------------------------------------------------------------------------------
+_NONFINAL = ("AB", "TypeAttribute", "ParametrizedAttribute", "Attribute")
+
+
 def _kinds(cs):
     return "+".join(sorted({x[0] for x in cs}))
 
@@ -572,6 +590,9 @@ def _signature(n, c, fk):
     if k == "anyof":
         merged = not (isinstance(c, AnyOf) and len(c.attr_constrs) == len(n[2]))
         what = "merge-changes-accepted-set" if merged else "verify"
+        if any(x[0] == "base" and x[1] in _NONFINAL for x in n[2]):
+            # a union with a BaseAttr over a non-final class (the "abstract" slot of the dispatch table)
+            return f"C09|AnyOf|{what}|nonfinal-base-alternative|{fk}"
         return f"C09|AnyOf|{what}|{n[1]}|{_kinds(n[2])}|{fk}"
     if k == "allof":
         return f"C09|AllOf|{n[1]}|{_kinds(n[2])}|{fk}"
@@ -783,6 +804,55 @@ def check_group(st, group, uni):
                        f"{show(a1)} and {show(a2)} are the same {a1[0]} built two ways but differ on {vname(uni[i])}",
                        {"mode": "group", "group": group, "attr": uni[i], "first": f1[i], "second": f2[i]})
     return len(res)
+
+
+# ------------------------------------------------------------------------------------------------
+# unions in EVERY order of their alternatives (broad non-final base x alternatives it covers)
+# ------------------------------------------------------------------------------------------------
+BROAD = (_base("AB"), _base("TypeAttribute"), ("base", "ParametrizedAttribute"), ("base", "Attribute"))
+
+
+def order_pools(cfg):
+    """(pair pool, triple pool): variable-free alternatives that are combined with every broad base"""
+    free, _, _ = _pools("d3", cfg)
+    leaves = [x for x in LEAVES_FULL if x != ANY and x not in BROAD]
+    pair_pool = leaves + [t for t in free if t[0] not in ("any", "base", "eq", "set")]
+    trip_extra = [t for t in free if t[0] in ("param", "iattr")][:cfg["ord_trip"]]
+    return pair_pool, leaves + trip_extra
+
+
+def check_order_group(st, alts, uni):
+    """alts: the alternatives of one union.  Every distinct permutation x every build variant: each one that
+    builds must accept exactly the reference set (run_tree), and all of them must accept the SAME set (cross-order
+    law).  One order building while another is refused is only counted."""
+    perms = _dedup(itertools.permutations(alts))
+    ref = [accept(("anyof", "get", tuple(alts)), v, {}) is not None for v in uni]
+    built = []
+    refused = 0
+    for how in ANYOF_HOWS:
+        nb = 0
+        for pm in perms:
+            ast = ("anyof", how, pm)
+            fl = run_tree(st, ast, uni, ref)
+            if fl is None:
+                refused += 1
+            else:
+                nb += 1
+                built.append((ast, fl))
+        if 0 < nb < len(perms):
+            st.bump("order_dependent_refusal")
+            st.outcomes[f"order-dependent-refusal:{how}"] += 1
+    for a2, f2 in built[1:]:
+        a1, f1 = built[0]
+        st.evaluations += 1
+        if f1 != f2:
+            i = next(i for i in range(len(f1)) if f1[i] != f2[i])
+            st.violate("C09|AnyOf|alternative-order-changes-accepted-set",
+                       f"{show(a1)} and {show(a2)} have the same alternatives but differ on {vname(uni[i])}",
+                       {"mode": "order", "alts": list(alts), "attr": uni[i], "first": show(a1), "second": show(a2)})
+    if built:
+        st.bump("order_groups_built")
+    return len(built)
 
 
 def groups_with_decls(groups, decls):
@@ -1032,8 +1102,8 @@ def hints_for(task, quick):
 # ------------------------------------------------------------------------------------------------
 def _config(quick):
     if quick:
-        return {"uni": U_QUICK, "decls": DECLS_QUICK, "d3": LEAVES_D3_QUICK, "useq": U_SEQ[:9], "trip": 20}
-    return {"uni": U_THOROUGH, "decls": DECLS_THOROUGH, "d3": LEAVES_D3_THOROUGH, "useq": U_SEQ, "trip": 40}
+        return {"uni": U_QUICK, "decls": DECLS_QUICK, "d3": LEAVES_D3_QUICK, "useq": U_SEQ[:9], "trip": 20, "ord_trip": 8}
+    return {"uni": U_THOROUGH, "decls": DECLS_THOROUGH, "d3": LEAVES_D3_THOROUGH, "useq": U_SEQ, "trip": 40, "ord_trip": 30}
 
 
 def _pools(section, cfg):
@@ -1086,6 +1156,19 @@ def _shard(task):
             count += 1
             if (count + seed) % 23 == 5:
                 st.sample({"section": "seq", "first": show(c1a), "second": show(c2a)})
+    elif section == "ord":
+        pair_pool, trip_pool = order_pools(cfg)
+        b = BROAD[idx[0]]
+        if kind == "pair":
+            groups = [(b, a) for a in pair_pool] + [(b, b2) for b2 in BROAD[idx[0] + 1:]]
+        else:
+            a1 = trip_pool[idx[1]]
+            groups = [(b, a1, a2) for a2 in trip_pool[idx[1]:]]
+        for g in groups:
+            n = check_order_group(st, g, cfg["uni"])
+            count += 1
+            if n and (count + seed) % 37 == 11:
+                st.sample({"section": "ord", "alternatives": [show(x) for x in g], "orders_x_variants_built": n})
     elif section == "hint":
         for h in hints_for((kind, idx), quick):
             check_hint(st, h, U_HINT)
@@ -1113,6 +1196,10 @@ def _tasks(quick, seed):
     nseq = len(seq_constraints({"T": ANY, "U": ANY}))
     for k in range(ncombo):
         tasks += [("seq", k, i, quick, seed) for i in range(nseq)]
+    pair_pool, trip_pool = order_pools(cfg)
+    for bi in range(len(BROAD)):
+        tasks.append(("ord", "pair", (bi, 0), quick, seed))
+        tasks += [("ord", "trip", (bi, i), quick, seed) for i in range(len(trip_pool))]
     ht, _, _ = hint_tasks(quick)
     tasks += [("hint", k, i, quick, seed) for k, i in ht]
     return tasks
@@ -1134,6 +1221,11 @@ def run(ctx):
                "children": f"every depth<=2 tree over these leaves ({len(d3free)} variable free, {len(d3all)} total), default build variant",
                "roots": "as d2 with 2 children; AnyOf / AllOf of 3 over the first "
                         f"{len(trip)} variable-free leaf/Param children"},
+        "ord": {"broad_bases": [show(b) for b in BROAD],
+                "pairs": f"each broad base x {len(order_pools(cfg)[0])} alternatives (all leaves + every depth<=2 d3 child), both orders",
+                "triples": f"each broad base x unordered pairs of {len(order_pools(cfg)[1])} alternatives, all 6 orders",
+                "variants": "AnyOf.get, |, AnyOf(...), Union hint for every order; law: every order that builds accepts "
+                            "exactly the reference set, and all built orders accept the same set"},
         "variable_declarations": {k: [show(x) for x in v] for k, v in cfg["decls"].items()},
         "universe": [vname(v) for v in cfg["uni"]],
         "sequence": {"constraints": "variable-containing depth<=2 trees over leaves " + ", ".join(show(x) for x in LEAVES_SEQ),
@@ -1168,6 +1260,8 @@ def replay(rep) -> bool:
         check_sequence(st, c1a, c2a, build(c1a), build(c2a), [tup(w["a1"]), tup(w["a2"])])
     elif mode == "hint":
         check_hint(st, tup(w["hint"]), [tup(w["attr"])])
+    elif mode == "order":
+        check_order_group(st, tup(w["alts"]), [tup(w["attr"])])
     elif mode == "infer":
         ast = tup(w["ast"])
         _check_infer(st, ast, build(ast), {n: real(tup(v)) for n, v in w["vars"].items()}, set())
